@@ -30,7 +30,7 @@ from . import core
 SENTINEL = 987654.25
 
 # ---------------------------------------------------------------- configurations
-COMMON_INV = ["Aligned", "Owned", "ArrShared", "OrderFree", "Bounded", "TlValid"]
+COMMON_INV = ["Aligned", "Owned", "ArrShared", "OrderFree", "Bounded", "TlValid", "FilesWellFormed"]
 
 CFGS = {
     # name: constants
@@ -58,6 +58,12 @@ CFGS = {
     "tr3": dict(InitVals="ValsTr", EmLists="ListsTr", EvLists="NoLists", TimeLists="TimeListsTr", Times="TimesTc",
                 MinRs="{0}", MutRs="{0, 3}", MinDists="{0}", TlLists="NoLists", MinDurs="{0}", MaxDrops=16, MaxEms=0, MaxRefs=6, MaxEv=0,
                 MaxTcs=0, MaxTrks=3, MaxLen=4, Depth=3, Ops="OpsTr"),
+    "io3": dict(InitVals="ValsTc", EmLists="ListsTc", EvLists="EvListsTc", TimeLists="TimeListsTc", Times="{4}",
+                MinRs="{0}", MutRs="{3}", MinDists="{0}", TlLists="NoLists", MinDurs="{0}", MaxDrops=14, MaxEms=6, MaxRefs=4, MaxEv=3,
+                MaxTcs=2, MaxTrks=2, MaxLen=3, Depth=3, Ops="OpsIo"),
+    "io4": dict(InitVals="ValsTc", EmLists="ListsTc", EvLists="EvListsTc", TimeLists="TimeListsTc", Times="{4}",
+                MinRs="{0}", MutRs="{3}", MinDists="{0}", TlLists="NoLists", MinDurs="{0}", MaxDrops=14, MaxEms=6, MaxRefs=4, MaxEv=3,
+                MaxTcs=2, MaxTrks=2, MaxLen=3, Depth=4, Ops="OpsIo"),
     "tl3": dict(InitVals="ValsTr", EmLists="ListsTr", EvLists="NoLists", TimeLists="TimeListsTr", Times="TimesTc",
                 MinRs="{0}", MutRs="{3}", MinDists="{0}", TlLists="TlListsA", MinDurs="MinDursA", MaxDrops=16, MaxEms=0, MaxRefs=4, MaxEv=0,
                 MaxTcs=0, MaxTrks=2, MaxLen=3, Depth=3, Ops="OpsTl"),
@@ -74,8 +80,8 @@ CFGS = {
                 MinRs="{0}", MutRs="{3}", MinDists="{0}", TlLists="NoLists", MinDurs="{0}", MaxDrops=16, MaxEms=0, MaxRefs=6, MaxEv=0,
                 MaxTcs=0, MaxTrks=3, MaxLen=3, Depth=5, Ops="OpsTr"),
 }
-QUICK = ["em3", "df3", "tc4", "tr3", "tl3"]
-THOROUGH = ["em4", "df4", "em5", "tc5", "tr4", "tl4"]
+QUICK = ["em3", "df3", "tc4", "tr3", "tl3", "io3"]
+THOROUGH = ["em4", "df4", "em5", "tc5", "tr4", "tl4", "io4"]
 
 
 def cfg_text(name: str, observe: str = "ObservePrint") -> str:
@@ -117,6 +123,24 @@ class World:
         self.trks = []
         self.tls = []
         self.arr = None
+        self.dir = None
+        self.file_kind = {1: "none", 2: "none"}
+
+    def path(self, p):
+        import tempfile
+
+        if self.dir is None:
+            WORKDIR = core.WORK / "c20files"
+            WORKDIR.mkdir(parents=True, exist_ok=True)
+            self.dir = tempfile.mkdtemp(dir=WORKDIR)
+        return os.path.join(self.dir, f"f{p}.h5")
+
+    def cleanup(self):
+        import shutil
+
+        if self.dir is not None:
+            shutil.rmtree(self.dir, ignore_errors=True)
+            self.dir = None
 
     # ---- one public call per spec action; returns the name of the exception raised ("" if none)
     def apply(self, o) -> str:
@@ -178,6 +202,21 @@ class World:
                 self.trks.append(DropletTrack(self.trks[o["k"] - 1]))
             elif op == "TrkIndex":
                 self.refs.append(self.trks[o["k"] - 1][o["i"] - 1])
+            elif op == "EmSave":
+                self.file_kind[o["p"]] = "em"
+                self.ev[o["e"] - 1].to_file(self.path(o["p"]))
+            elif op == "EmLoad":
+                self.ev.append(Emulsion.from_file(self.path(o["p"])))
+            elif op == "TcSave":
+                self.file_kind[o["p"]] = "tc"
+                self.tcs[o["c"] - 1].to_file(self.path(o["p"]))
+            elif op == "TcLoad":
+                self.tcs.append(EmulsionTimeCourse.from_file(self.path(o["p"]), progress=False))
+            elif op == "TrkSave":
+                self.file_kind[o["p"]] = "trk"
+                self.trks[o["k"] - 1].to_file(self.path(o["p"]))
+            elif op == "TrkLoad":
+                self.trks.append(DropletTrack.from_file(self.path(o["p"])))
             elif op == "TlNew":
                 from droplets.droplet_tracks import DropletTrackList
 
@@ -372,6 +411,21 @@ def compare(w: World, t, q, fails: list) -> None:
             fails.append("track-times")
         if len(r.droplets) != len(tr["objs"]):
             fails.append("track-length")
+    for p, f in enumerate(t.get("files", []), 1):
+        path = w.path(p)
+        if f["kind"] == "none":
+            if os.path.exists(path):
+                fails.append("file exists although nothing was written")
+        else:
+            try:
+                import h5py
+
+                with h5py.File(path, "r") as fp:
+                    nsets = len(fp)
+                if nsets != len(f["sets"]):
+                    fails.append(f"file {p} holds {nsets} datasets, spec {len(f['sets'])}")
+            except OSError as exc:
+                fails.append(f"file {p} unreadable: {exc}")
     if len(w.tls) != len(t["tls"]):
         fails.append("tracklists-count")
     else:
@@ -560,6 +614,7 @@ def _replay_lines(rng_):
                 raise
             except Exception as exc:  # noqa: BLE001
                 fails.append(f"observation raised {type(exc).__name__}: {exc}")
+            w.cleanup()
             n += 1
             if len(ops) >= 3:
                 nontriv += 1
